@@ -165,6 +165,34 @@ def gen_spec(rng, dense=False):
     return {"tasks": tasks, "ext": ext, "hosts": hosts, "workers": workers}
 
 
+def ambiguate(spec, rng):
+    """Rename two tasks and one output of each so that task-name + output-name of two DIFFERENT datasets is the same
+    string ("q"+"xy" == "qx"+"y"): every per-dataset key the implementation derives from the two names must still differ."""
+    ts = spec["tasks"]
+    if len(ts) < 2:
+        return spec
+    i, j = rng.sample(range(len(ts)), 2)
+    ren_t = {ts[i]["name"]: "q", ts[j]["name"]: "qx"}
+    oi, oj = rng.randrange(len(ts[i]["outs"])), rng.randrange(len(ts[j]["outs"]))
+    ren_o = {(ts[i]["name"], ts[i]["outs"][oi]): "xy", (ts[j]["name"], ts[j]["outs"][oj]): "y"}
+
+    def ds(t, o):
+        return [ren_t.get(t, t), ren_o.get((t, o), o)]
+    for t in ts:
+        for b in t["bind"]:
+            if "src" in b:
+                b["src"] = ds(*b["src"])
+    spec["ext"] = [ds(t, o) for t, o in spec["ext"]]
+    for t in ts:
+        t["outs"] = [ren_o.get((t["name"], o), o) for o in t["outs"]]
+        t["name"] = ren_t.get(t["name"], t["name"])
+    if rng.random() < 0.6:
+        spec["hosts"] = 1                 # both datasets in one host's store for sure
+        spec["workers"] = max(spec["workers"], 2) if rng.random() < 0.5 else spec["workers"]
+    spec["ambiguous_names"] = True
+    return spec
+
+
 def features(spec):
     """what the case exercises (for the printed distribution / nontriviality)"""
     f = set()
@@ -418,7 +446,11 @@ def correspond_real(ctx):
     reported = 0
     for i in range(n):
         seed = ctx.rng.randrange(1 << 30)
-        spec = gen_spec(random.Random(seed), dense=i < 3 or i % 2 == 1)
+        grng = random.Random(seed)
+        spec = gen_spec(grng, dense=i < 3 or i % 2 == 1)
+        if i % 3 == 1:
+            spec = ambiguate(spec, grng)
+            ctx.count("real:ambiguous-name-concatenation")
         spec["seed"] = seed
         case = {"real": spec}
         feats = features(spec)
